@@ -70,6 +70,93 @@ pub fn check(c: &RsData) -> Verdict {
     Verdict::Pass(Pass::new(format!("{}/blocks{}", c.stratum, sym.blocks), nontrivial))
 }
 
+/// remainder register of the reference LFSR after a message (one block, MSB first)
+fn remainder(msg: &[u8], g: &[u8]) -> Vec<u8> {
+    let k = g.len() - 1;
+    let mut rem = vec![0u8; k];
+    for d in msg {
+        let f = *d ^ rem[0];
+        for j in 0..k {
+            let next = if j + 1 < k { rem[j + 1] } else { 0 };
+            rem[j] = next ^ gf::mul(f, g[j + 1]);
+        }
+    }
+    rem
+}
+
+/// Data vectors that steer the division register of one block into a special state at a chosen
+/// position (all zero, a single non-zero entry in first / last / any place, all entries equal),
+/// followed by a chosen next codeword (0, equal to the register's head, random) and random data.
+/// Random data reaches such states with probability 255^-(k-1); shortcuts in an encoder
+/// ("nothing to do if the remainder is empty") are wrong exactly there.  The k codewords in
+/// front of the position are solved for (the register is an invertible linear function of them).
+pub fn g_register_state() -> BoxedStrategy<RsData> {
+    (any::<u16>(), crate::gens::g_blob(1558), any::<u16>(), any::<u16>(), any::<u16>(), any::<u16>(), any::<u8>(), any::<u16>())
+        .prop_map(|(s, bytes, bsel, psel, fam, nxt, val, zsel)| {
+            let symi = crate::rsgen::pick_sym(s);
+            let sym = &SYMBOLS[symi];
+            let k = sym.ec_per_block();
+            let g = gf::generator(k);
+            let b = pick(bsel, sym.blocks);
+            let nd = sym.block_data_len(b);
+            let mut data = match pick(zsel, 3) { 0 => vec![0u8; sym.data], _ => bytes[..sym.data].to_vec() };
+            if nd < k + 1 {
+                return RsData { sym: symi, data, stratum: "register-state(block too short)" };
+            }
+            // block-local view
+            let idx: Vec<usize> = (b..sym.data).step_by(sym.blocks).collect();
+            // the register shall have the target value after position p (exclusive), k <= p <= nd
+            let p = match pick(psel, 4) { 0 => nd, 1 => k, _ => k + pick(psel.rotate_left(5), nd - k + 1) };
+            let v = if val == 0 { 1 } else { val };
+            let mut target = vec![0u8; k];
+            match pick(fam, 6) {
+                0 => {}
+                1 => target[0] = v,
+                2 => target[k - 1] = v,
+                3 => target[pick(fam.rotate_left(7), k)] = v,
+                4 => target.iter_mut().for_each(|x| *x = v),
+                _ => {
+                    target[0] = v;
+                    target[k - 1] = v.rotate_left(3) | 1;
+                }
+            }
+            // prefix of the block before the k solved codewords
+            let mut blk: Vec<u8> = idx.iter().map(|i| data[*i]).collect();
+            let base = remainder(&blk[..p - k], &g);
+            // register after k more codewords d: R = T(base) + M d, M invertible; columns by unit vectors
+            let zero_prefix = vec![0u8; p - k];
+            let mut with = |d: &[u8]| {
+                let mut m = zero_prefix.clone();
+                m.extend_from_slice(d);
+                remainder(&m, &g)
+            };
+            let mut cols = Vec::new();
+            for i in 0..k {
+                let mut u = vec![0u8; k];
+                u[i] = 1;
+                cols.push(with(&u));
+            }
+            // contribution of the prefix: shift base through k zero codewords
+            let mut pm = blk[..p - k].to_vec();
+            pm.extend(std::iter::repeat(0u8).take(k));
+            let tb = remainder(&pm, &g);
+            let _ = base;
+            let a: Vec<Vec<u8>> = (0..k).map(|r| (0..k).map(|c| cols[c][r]).collect()).collect();
+            let rhs: Vec<u8> = (0..k).map(|r| target[r] ^ tb[r]).collect();
+            if let Some(d) = gf::solve(&a, &rhs) {
+                blk[p - k..p].copy_from_slice(&d[..k]);
+            }
+            if p < nd {
+                blk[p] = match pick(nxt, 4) { 0 => 0, 1 => target[0], 2 => target[k - 1], _ => blk[p] };
+            }
+            for (j, i) in idx.iter().enumerate() {
+                data[*i] = blk[j];
+            }
+            RsData { sym: symi, data, stratum: "register-state" }
+        })
+        .boxed()
+}
+
 pub fn g_rs_data() -> BoxedStrategy<RsData> {
     (any::<u16>(), any::<u16>(), crate::gens::g_blob(1558), vec(any::<u16>(), 0..6))
         .prop_map(|(s, k, bytes, sparse)| {
@@ -110,6 +197,7 @@ fn run(ctx: &Arc<Ctx>) {
     }
     ctx.run_enumerated("unit-vectors", "rsdata", cases, Some("every unit vector position of every symbol size (the code is linear, so unit vectors span all data vectors)"), check);
     ctx.run_generated("generated", "rsdata", ctx.cases(20_000, 600_000), g_rs_data, check);
+    ctx.run_generated("register-states", "rsdata", ctx.cases(40_000, 800_000), g_register_state, check);
 }
 
 fn replay(_ctx: &Ctx, kind: &str, case: &Value) -> Option<Verdict> {
